@@ -161,6 +161,8 @@ fn main() {
         // saturation probe
         let (t, s) = cache_ops::saturation_probe();
         shards.push(("P".into(), t));
+        let mut s = s;
+        s["engine_level"] = engine_hist::saturation_probe_engine();
         summary.insert("probe".into(), s);
     }
     let mut kinds = vec![];
